@@ -66,25 +66,16 @@ func (f *Typep) Call(s *slip.Scope, args slip.List, depth int) slip.Object {
 		slip.TypePanic(s, depth, "type", args[1], "symbol")
 	}
 	sym = typeName(sym)
-	switch ta := args[0].(type) {
-	case nil:
-		if strings.EqualFold("null", string(sym)) {
+	object := args[0]
+	if object == nil {
+		object = slip.List{} // nil is the empty list
+	}
+	if list, ok := object.(slip.List); ok && len(list) == 0 && strings.EqualFold("null", string(sym)) {
+		return slip.True
+	}
+	for _, h := range object.Hierarchy() {
+		if strings.EqualFold(string(h), string(sym)) {
 			return slip.True
-		}
-	case slip.List:
-		if len(ta) == 0 && strings.EqualFold("null", string(sym)) {
-			return slip.True
-		}
-		for _, h := range ta.Hierarchy() {
-			if strings.EqualFold(string(h), string(sym)) {
-				return slip.True
-			}
-		}
-	default:
-		for _, h := range ta.Hierarchy() {
-			if strings.EqualFold(string(h), string(sym)) {
-				return slip.True
-			}
 		}
 	}
 	return nil
